@@ -150,13 +150,15 @@ func (dc *databaseChannel) Write(ctx context.Context, brokerBatchRows *metric.Br
 		for familyIterator.HasNextFamily() {
 			familyTime, rows := familyIterator.NextFamily()
 			familyChannel := channel.GetOrCreateFamilyChannel(familyTime)
-			if err = familyChannel.Write(ctx, rows); err != nil {
+			// keep the failure of an earlier shard/family, a later successful write must not clear it
+			if writeErr := familyChannel.Write(ctx, rows); writeErr != nil {
+				err = writeErr
 				dc.logger.Error("failed writing rows to family shardChannel",
 					logger.String("database", dc.databaseCfg.Name),
 					logger.Int("shardID", shardID.Int()),
 					logger.Int("rows", len(rows)),
 					logger.Int64("familyTime", familyTime),
-					logger.Error(err))
+					logger.Error(writeErr))
 			}
 		}
 	}
